@@ -888,7 +888,10 @@ func (fr *frame) makeInterface(x *ssa.MakeInterface, st *State) *Val {
 	v := fr.get(x.X)
 	tag := IntLit(int64(fr.w.tagOf(x.X.Type())))
 	if v.T == nil {
-		fr.fail(x.Pos(), "boxing of compound value %s", x.X.Type())
+		// a struct value: the box is opaque (fresh id), only the dynamic type is tracked
+		id := fr.vc.fresh(fr.sym(x)+"!box", SInt)
+		fr.vc.assume(True, Gt(id, IntLit(0)))
+		return &Val{T: MkIface(tag, id), Ty: x.Type()}
 	}
 	switch v.T.Sort {
 	case SInt:
